@@ -538,10 +538,16 @@ def _sites(fn: _ast.AST, kind: str) -> List[_ast.AST]:
             out.append(n)
         elif kind == "flip-eq" and isinstance(n, _ast.Compare) and len(n.ops) == 1 and isinstance(n.ops[0], (_ast.Eq, _ast.NotEq)) and not isinstance(n.left, _ast.Constant):
             out.append(n)
+        elif kind == "not-compare" and isinstance(n, _ast.Compare) and len(n.ops) == 1 and isinstance(n.ops[0], (_ast.NotIn, _ast.IsNot, _ast.NotEq)):
+            out.append(n)
+        elif kind == "expand-aug" and isinstance(n, _ast.AugAssign) and isinstance(n.target, _ast.Name) and isinstance(n.op, (_ast.Add, _ast.Sub)):
+            out.append(n)
+        elif kind == "wrap-else" and isinstance(n, _ast.If) and not n.orelse and n.body and isinstance(n.body[-1], (_ast.Return, _ast.Raise, _ast.Continue, _ast.Break)):
+            out.append(n)
     return out
 
 
-REFACTOR_KINDS = ("invert-if", "return-temp", "flip-eq")
+REFACTOR_KINDS = ("invert-if", "return-temp", "flip-eq", "not-compare", "expand-aug", "wrap-else")
 
 
 def refactor_jobs(root: str, only: Optional[str]) -> List[Tuple[str, str, str, str, int]]:
@@ -600,6 +606,40 @@ def _refactor_one(job: Tuple[str, Tuple[str, str, str, str, int]]) -> Dict[str, 
                     n.body, n.orelse = n.orelse, n.body
                 elif kind == "flip-eq":
                     n.left, n.comparators = n.comparators[0], [n.left]
+                elif kind == "not-compare":
+                    inv = {_ast.NotIn: _ast.In, _ast.IsNot: _ast.Is, _ast.NotEq: _ast.Eq}[type(n.ops[0])]
+                    inner = _ast.Compare(left=n.left, ops=[inv()], comparators=n.comparators)
+                    # replace n in its parent by `not (inner)`
+                    for par in _ast.walk(fn):
+                        for fld, val in _ast.iter_fields(par):
+                            if val is n:
+                                setattr(par, fld, _ast.UnaryOp(op=_ast.Not(), operand=inner))
+                            elif isinstance(val, list) and any(v is n for v in val):
+                                val[[i for i, v in enumerate(val) if v is n][0]] = _ast.UnaryOp(op=_ast.Not(), operand=inner)
+                elif kind == "expand-aug":
+                    for par in _ast.walk(fn):
+                        for fld in ("body", "orelse", "finalbody"):
+                            blk = getattr(par, fld, None)
+                            if isinstance(blk, list) and n in blk:
+                                blk[blk.index(n)] = _ast.Assign(targets=[_ast.Name(id=n.target.id, ctx=_ast.Store())], value=_ast.BinOp(left=_ast.Name(id=n.target.id, ctx=_ast.Load()), op=n.op, right=n.value), lineno=n.lineno, col_offset=n.col_offset)
+                        if isinstance(par, _ast.Try):
+                            for h in par.handlers:
+                                if n in h.body:
+                                    h.body[h.body.index(n)] = _ast.Assign(targets=[_ast.Name(id=n.target.id, ctx=_ast.Store())], value=_ast.BinOp(left=_ast.Name(id=n.target.id, ctx=_ast.Load()), op=n.op, right=n.value), lineno=n.lineno, col_offset=n.col_offset)
+                elif kind == "wrap-else":
+                    # `if c: ...exit` followed by REST in the same block  ->  `if c: ...exit else: REST`
+                    moved = False
+                    for par in _ast.walk(fn):
+                        for fld in ("body", "orelse", "finalbody"):
+                            blk = getattr(par, fld, None)
+                            if isinstance(blk, list) and n in blk and not moved:
+                                i = blk.index(n)
+                                rest = blk[i + 1:]
+                                if rest and not any(isinstance(x, (_ast.FunctionDef, _ast.ClassDef)) for x in rest):
+                                    n.orelse = rest
+                                    del blk[i + 1:]
+                                    moved = True
+                    done = moved
                 elif kind == "return-temp":
                     # `return E`  ->  `_rt = E; return _rt`  (in the statement list that holds the return)
                     for par in _ast.walk(fn):
